@@ -11,7 +11,7 @@ typedef signed char hkey;        /* Key: only compared (std::less, ==); 8-bit va
 hkey nondet_key(void);
 struct node { hkey key; mptr next; };
 struct hms { mptr head; };
-struct guard { mptr ptr; };     /* guard_ptr: only written by the contract stubs below */
+struct guard { mptr ptr; _Bool fake; };   /* guard_ptr: only written by the contract stubs below; ghost `fake`: built from a raw pointer that was not pinned, protects nothing */
 struct find_info { mptr* prev; mptr next; struct guard cur; struct guard save; };
 struct iter { struct hms* list; struct find_info info; };
 
@@ -52,7 +52,8 @@ static size_t deref_idx(mptr p) {
   return i < NP ? i : 0;
 }
 static struct node* nochk(mptr p) { size_t i = NIDX(MP_get(p)); return (MP_get(p) != 0 && i < NP) ? &pool[i] : &xv_dummy; }
-#define GDEREF(g) (&pool[deref_idx((g).ptr)])
+static size_t deref_guard(struct guard* g) { if (g->fake) g_fake_used = 1; return deref_idx(g->ptr); }
+#define GDEREF(g) (&pool[deref_guard(&(g))])
 #define NDEREF(n) (&pool[deref_idx(n)])
 #define NOCHK_DEREF(g) (nochk((g).ptr))
 static void mon_access(const void* addr) {
@@ -79,11 +80,33 @@ static void n_delete(mptr n) {
 /* ------------------------------------------------------------------ guard_ptr contract stubs (proved per reclaimer elsewhere) */
 static void g_protect(mptr p) { size_t i = NIDX(MP_get(p)); if (MP_get(p) != 0 && i < NP) g_cnt[i]++; }
 static void g_unprotect(mptr p) { size_t i = NIDX(MP_get(p)); if (MP_get(p) != 0 && i < NP) g_cnt[i]--; }
-static void g_reset(struct guard* g) { g_unprotect(g->ptr); g->ptr = 0; }
-static void g_copy(struct guard* d, struct guard* s) { if (d == s) return; mptr v = s->ptr; g_reset(d); d->ptr = v; g_protect(v); }
-static void g_move(struct guard* d, struct guard* s) { if (d == s) return; g_reset(d); d->ptr = s->ptr; s->ptr = 0; }
-static void g_swap(struct guard* a, struct guard* b) { mptr t = a->ptr; a->ptr = b->ptr; b->ptr = t; }
-static void g_set_ptr(struct guard* g, mptr p) { g->ptr = p; g_protect(p); }
+static void g_reset(struct guard* g) { if (!g->fake) g_unprotect(g->ptr); g->ptr = 0; g->fake = 0; }
+static void g_copy(struct guard* d, struct guard* s) { if (d == s) return; mptr v = s->ptr; _Bool f = s->fake; g_reset(d); d->ptr = v; d->fake = f; if (!f) g_protect(v); }
+static void g_move(struct guard* d, struct guard* s) { if (d == s) return; g_reset(d); d->ptr = s->ptr; d->fake = s->fake; s->ptr = 0; s->fake = 0; }
+static void g_swap(struct guard* a, struct guard* b) { struct guard t = *a; *a = *b; *b = t; }
+/* guard_ptr(raw pointer): no validation is possible, so the constructor protects p only if p is PINNED while it runs:
+ *   p is null, or p is this operation's own unpublished node, or p is already protected by a live guard of this thread, or
+ *   p is the frozen successor (c->next carries the delete mark, so it cannot change) of a node c that this thread guards and that is
+ *   STILL LINKED: p cannot be unlinked - hence not retired, not freed - before c is.
+ * Otherwise the new guard is `fake`: it protects nothing (the node may already be reclaimed).  A fake guard may be dropped, but it must
+ * never be dereferenced, retired through, or end up in a result (obligation hms.guard.raw_pinned). */
+_Bool g_fake_used; unsigned n_raw_guard, n_raw_unpinned;
+static _Bool raw_pinned(mptr p) {
+  size_t i = NIDX(MP_get(p));
+  if (MP_get(p) == 0) return 1;
+  if (i >= NP || !g_alloc[i]) return 0;
+  if (!g_pub[i] || g_cnt[i] > 0) return 1;
+  _Bool pin = 0;
+  for (int c = 0; c < NP; c++)
+    if (g_alloc[c] && g_pub[c] && g_cnt[c] > 0 && g_linked[c] && MP_mark(pool[c].next) != 0 && MP_get(pool[c].next) == MP_get(p)) pin = 1;
+  return pin;
+}
+static void g_set_ptr(struct guard* g, mptr p) {
+  n_raw_guard++;
+  g->ptr = p; g->fake = !raw_pinned(p);
+  if (g->fake) n_raw_unpinned++; else g_protect(p);
+}
+static void g_assign_ptr(struct guard* d, mptr p) { struct guard t; t.ptr = 0; t.fake = 0; g_set_ptr(&t, p); g_move(d, &t); }   /* d = guard_ptr(p); */
 static void g_acquire(struct guard* g, mptr* cell, int order) { g_reset(g); mptr v = A_LOAD(*cell, order); g->ptr = v; g_protect(v); }
 mptr* aie_cell; mptr aie_val; uint64_t aie_clock; _Bool aie_ok;       /* last acquire_if_equal (for the commit obligations) */
 static _Bool g_aie(struct guard* g, mptr* cell, mptr expected, int order) {
@@ -92,14 +115,15 @@ static _Bool g_aie(struct guard* g, mptr* cell, mptr expected, int order) {
   if (v != expected) return 0;
   g->ptr = v; g_protect(v); return 1;
 }
-static void g_reclaim(struct guard* g) { size_t i = NIDX(MP_get(g->ptr)); if (MP_get(g->ptr) == 0 || i >= NP) { g_unsafe = 1; return; } if (g_retired[i] < 3) g_retired[i]++; if (u_retire[i] < 3) u_retire[i]++; g_reset(g); }
-#define G_INIT(g) ((g).ptr = 0)
+static void g_reclaim(struct guard* g) { if (g->fake) g_fake_used = 1; size_t i = NIDX(MP_get(g->ptr)); if (MP_get(g->ptr) == 0 || i >= NP) { g_unsafe = 1; return; } if (g_retired[i] < 3) g_retired[i]++; if (u_retire[i] < 3) u_retire[i]++; g_reset(g); }
+#define G_INIT(g) ((g).ptr = 0, (g).fake = 0)
 #define G_DTOR(g) g_reset(&(g))
 #define G_RESET(g) g_reset(&(g))
 #define G_COPY(d, s) g_copy(&(d), &(s))
 #define G_MOVE(d, s) g_move(&(d), &(s))
 #define G_SWAP(a, b) g_swap(&(a), &(b))
 #define G_SET_PTR(g, p) g_set_ptr(&(g), (p))
+#define G_ASSIGN_PTR(g, p) g_assign_ptr(&(g), (p))
 #define G_ACQUIRE(g, cell, o) g_acquire(&(g), &(cell), (o))
 #define G_ACQUIRE_IF_EQUAL(g, cell, e, o) g_aie(&(g), &(cell), (e), (o))
 #define G_RECLAIM(g) g_reclaim(&(g))
@@ -205,7 +229,7 @@ static void build(void) {
   }
   pool[L].key = nondet_key(); pool[L].next = nondet_uptr(); g_alloc[L] = 0; g_pub[L] = 0; g_retired[L] = 0; g_cnt[L] = 0; u_unlink[L] = 0; u_retire[L] = 0; g_gen[L] = 0; g_linked[L] = 0;
   the_set.head = nxt; in_newslot = L;
-  g_unsafe = 0; g_new = 0; g_delete = 0; g_bad_delete = 0; n_link = n_mark = n_unlink = n_illegal = 0; mon_on = 1;
+  g_unsafe = 0; g_new = 0; g_delete = 0; g_bad_delete = 0; n_link = n_mark = n_unlink = n_illegal = 0; mon_on = 1; g_fake_used = 0; n_raw_guard = n_raw_unpinned = 0;
   aie_cell = 0; aie_ok = 0; last_mark_was_read = 0; for (int i = 0; i < NP; i++) rd_has[i] = 0;
   xv_clock = nondet_u64(); XV_ASSUME(xv_clock < ((uint64_t)1 << 62));
 }
@@ -217,6 +241,7 @@ static _Bool pre_has(hkey k) { _Bool r = 0; for (int i = 0; i < NP; i++) if (pre
 /* a guard held by the handle under test: empty (idx == NP) or any published, not freed node */
 static void give_guard(struct guard* g, unsigned idx) {
   XV_ASSUME(idx <= NP);
+  g->fake = 0;
   if (idx == NP) { g->ptr = 0; return; }
   XV_ASSUME(idx < L && in_kind[idx] != K_FREE);
   g->ptr = NADDR(idx); g_cnt[idx]++;
@@ -248,7 +273,9 @@ static size_t first_ge(hkey k, size_t except) {
   for (int i = 0; i < NP; i++) if (post_in[i] && i != except && !KEY_LESS(pool[i].key, k) && (best == NP || KEY_LESS(pool[i].key, pool[best].key))) best = i;
   return best;
 }
-static unsigned guards_on(struct find_info* a, size_t j) { return (G_GET(a->cur) == NADDR(j)) + (G_GET(a->save) == NADDR(j)); }
+static unsigned guards_on(struct find_info* a, size_t j) { return (G_GET(a->cur) == NADDR(j) && !a->cur.fake) + (G_GET(a->save) == NADDR(j) && !a->save.fake); }
+/* no guard of a result was built from an unpinned raw pointer, and no such guard was dereferenced or retired through */
+static _Bool no_fake(struct find_info* a) { return !g_fake_used && !a->cur.fake && !a->save.fake; }
 /* frame for an arbitrary node j: what a helping traversal may do to nodes other than the one an operation targets */
 static _Bool frame_ok(size_t j) {
   if (pool[j].key != pre_key[j] && pre_kind[j] != K_FREE) return 0;
@@ -261,7 +288,7 @@ static _Bool frame_ok(size_t j) {
 /* iterator invariant: what any sequence of operations on this and other handles can leave in an iterator */
 static _Bool iter_inv(struct iter* it) {
   mptr c = G_GET(it->info.cur), s = G_GET(it->info.save);
-  if (it->list != &the_set || G_MARK(it->info.cur) || G_MARK(it->info.save)) return 0;
+  if (it->list != &the_set || G_MARK(it->info.cur) || G_MARK(it->info.save) || it->info.cur.fake || it->info.save.fake) return 0;
   if (c != 0 && !(NIDX(c) < NP && g_alloc[NIDX(c)] && g_pub[NIDX(c)])) return 0;
   if (s != 0 && !(NIDX(s) < NP && g_alloc[NIDX(s)] && g_pub[NIDX(s)])) return 0;
   if (s == 0 ? (it->info.prev != &the_set.head && !(c == 0 && it->info.prev == 0)) : (it->info.prev != &pool[NIDX(s)].next)) return 0;
@@ -276,7 +303,7 @@ struct iter g_it; size_t in_j; unsigned in_start, in_cur;
  * real text (h_find_int, function hms_find_cut = the same source text with the for loop and the retry label cut); the callers are
  * then proved with find replaced by that contract (find_stub). */
 size_t in_m; unsigned char m_gen; _Bool m_marked;   /* ghost: an arbitrary node that is marked when find is entered */
-static _Bool guard_ok(struct guard* g) { size_t i = NIDX(MP_get(g->ptr)); return g->ptr == 0 || (i < NP && g->ptr == NADDR(i) && g_alloc[i] && g_pub[i] && g_cnt[i] > 0); }
+static _Bool guard_ok(struct guard* g) { size_t i = NIDX(MP_get(g->ptr)); return !g->fake && (g->ptr == 0 || (i < NP && g->ptr == NADDR(i) && g_alloc[i] && g_pub[i] && g_cnt[i] > 0)); }
 /* exact accounting of this handle's guards: the find_info(s) in use plus one more guard */
 static _Bool cnt_exact(struct find_info* a, struct guard* b, struct find_info* c) {
   _Bool ok = 1;
@@ -293,14 +320,14 @@ static _Bool retire_ok(size_t j) { return u_unlink[j] == u_retire[j]; }
 static _Bool mark_mono(void) { return !m_marked || g_gen[in_m] != m_gen || !g_alloc[in_m] || MP_mark(pool[in_m].next) != 0; }
 static _Bool int_common(void) { return int_wf() && n_illegal == 0 && retire_ok(in_j) && !g_unsafe && !g_bad_delete && mark_mono(); }
 static void havoc_guards(void) { for (int i = 0; i < NP; i++) g_cnt[i] = (signed char)nondet_uchar(); }
-static void havoc_info(struct find_info* f) { f->prev = nondet_uptr_p(); f->next = nondet_uptr(); f->cur.ptr = nondet_uptr(); f->save.ptr = nondet_uptr(); }
+static void havoc_info(struct find_info* f) { f->prev = nondet_uptr_p(); f->next = nondet_uptr(); f->cur.ptr = nondet_uptr(); f->save.ptr = nondet_uptr(); f->cur.fake = 0; f->save.fake = 0; }
 static void havoc_progress(void) { u_unlink[in_j] = nondet_uchar(); u_retire[in_j] = nondet_uchar(); n_unlink = nondet_uint(); for (int i = 0; i < NP; i++) { rd_val[i] = nondet_uptr(); rd_has[i] = nondet_bool(); }
   aie_cell = nondet_uptr_p(); aie_val = nondet_uptr(); aie_ok = nondet_bool(); }
 /* an arbitrary reachable state for the INT harnesses: any well-formed list, nothing protected yet */
 static void int_init(void) {
   for (int i = 0; i < NP; i++) { g_alloc[i] = 0; g_pub[i] = 0; g_cnt[i] = 0; g_linked[i] = 0; g_retired[i] = 0; u_unlink[i] = 0; u_retire[i] = 0; g_gen[i] = nondet_uchar();
     pool[i].key = nondet_key(); pool[i].next = nondet_uptr(); }
-  in_newslot = L; g_new = 0; g_delete = 0; g_bad_delete = 0; g_unsafe = 0; n_link = n_mark = n_unlink = n_illegal = 0; mon_on = 1;
+  in_newslot = L; g_new = 0; g_delete = 0; g_bad_delete = 0; g_unsafe = 0; n_link = n_mark = n_unlink = n_illegal = 0; mon_on = 1; g_fake_used = 0; n_raw_guard = n_raw_unpinned = 0;
   aie_cell = 0; aie_ok = 0; last_mark_was_read = 0; m_marked = 0; for (int i = 0; i < NP; i++) rd_has[i] = 0;
   xv_clock = nondet_u64(); XV_ASSUME(xv_clock < ((uint64_t)1 << 62));
   env_havoc();
@@ -308,6 +335,7 @@ static void int_init(void) {
 }
 static void int_guard(struct guard* g, unsigned idx) {      /* a guard the handle already holds: empty or any published, allocated node */
   XV_ASSUME(idx <= NP);
+  g->fake = 0;
   if (idx == NP) { g->ptr = 0; return; }
   XV_ASSUME(idx < NP && g_alloc[idx] && g_pub[idx]);
   g->ptr = NADDR(idx); g_cnt[idx]++;
@@ -324,7 +352,7 @@ static void int_info(struct find_info* f, hkey key) {
    (start_guard.ptr != 0 && guard_ok(&start_guard) && start == &pool[NIDX(start_guard.ptr)].next && KEY_LESS(pool[NIDX(start_guard.ptr)].key, key)))
 #define FIND_CNT_OK cnt_exact(info_p, &start_guard, 0)
 #define XV_INV_RETRY (int_common() && n_link == 0 && n_mark == 0 && g_new == 0 && FIND_START_OK && FIND_CNT_OK && guard_ok(&(*info_p).cur) && guard_ok(&(*info_p).save))
-#define XV_HAVOC_RETRY env_havoc(); havoc_info(info_p); havoc_guards(); havoc_progress(); start = nondet_uptr_p(); start_guard.ptr = nondet_uptr()
+#define XV_HAVOC_RETRY env_havoc(); havoc_info(info_p); havoc_guards(); havoc_progress(); start = nondet_uptr_p(); start_guard.ptr = nondet_uptr(); start_guard.fake = 0
 #define XV_INV_FINDLOOP (int_common() && n_link == 0 && n_mark == 0 && g_new == 0 && FIND_START_OK && FIND_CNT_OK && fi_ok(info_p, key) && \
    MP_mark((*info_p).next) == 0 && word_ok((*info_p).next))
 #define XV_HAVOC_FINDLOOP env_havoc(); havoc_info(info_p) /* info: next prev cur save; expected GDEREF */; havoc_guards(); havoc_progress()
@@ -509,6 +537,7 @@ void h_emplace_or_get(void) {
   XV_OBL("hms.insert.iterator", iter_inv(&it));
   XV_OBL("hms.insert.guards", g_cnt[in_j] == (int)guards_on(&it.info, in_j) && g_cnt[L] == (int)guards_on(&it.info, L));
   XV_OBL("hms.insert.safe", !g_unsafe);
+  XV_OBL("hms.guard.raw_pinned", no_fake(&it.info) && n_raw_unpinned == 0);
   if (r && it.info.prev == &the_set.head) XV_CANARY("insert.at_head");
   if (r && pool[L].next == 0 && it.info.prev != &the_set.head) XV_CANARY("insert.at_tail");
   if (n_unlink) XV_CANARY("insert.helped");
@@ -612,6 +641,10 @@ void h_erase_it(void) {
   XV_OBL("hms.iter.erase.frame", g_new == 0 && g_delete == 0 && n_link == 0 && n_illegal == 0);
   XV_OBL("hms.iter.erase.guards", g_cnt[in_j] == (int)(guards_on(&g_it.info, in_j) + guards_on(&ret.info, in_j)));
   XV_OBL("hms.iter.erase.safe", !g_unsafe);
+  /* the successor is guarded through a raw pointer: only legitimate while it is pinned (see g_set_ptr); an unpinned one may only be dropped */
+  XV_OBL("hms.guard.raw_pinned", no_fake(&ret.info) && no_fake(&g_it.info));
+  if (n_raw_guard && !n_raw_unpinned && n_unlink == 1) XV_CANARY("erase_it.raw_guard_pinned");
+  if (n_raw_unpinned) XV_CANARY("erase_it.raw_guard_unpinned_dropped");
   if (!c0_marked && n_unlink == 1) XV_CANARY("erase_it.direct");
   if (!c0_marked && n_unlink >= 2) XV_CANARY("erase_it.refind");
   if (c0_marked && in_kind[c0] == K_LINKED) XV_CANARY("erase_it.cur_marked_linked");
@@ -683,6 +716,7 @@ void h_emplace_int(void) {
   XV_OBL("hms.insert.iterator", fi_ok(&it.info, in_k) && it.list == &the_set);
   XV_OBL("hms.insert.guards", g_cnt[in_j] == (int)guards_on(&it.info, in_j));
   XV_OBL("hms.insert.safe", !g_unsafe);
+  XV_OBL("hms.guard.raw_pinned", no_fake(&it.info) && n_raw_unpinned == 0);
   if (r) XV_CANARY("insert_int.true"); else XV_CANARY("insert_int.false");
 #endif
 }
@@ -728,6 +762,8 @@ void h_erase_it_int(void) {
   XV_OBL("hms.iter.erase.next", ret.list == &the_set && nc != c0 && (nc == NP || (guard_ok(&ret.info.cur) && !KEY_LESS(pool[nc].key, k0))));
   XV_OBL("hms.iter.erase.guards", g_cnt[in_j] == (int)(guards_on(&g_it.info, in_j) + guards_on(&ret.info, in_j)));
   XV_OBL("hms.iter.erase.safe", !g_unsafe);
+  XV_OBL("hms.guard.raw_pinned", no_fake(&ret.info) && no_fake(&g_it.info));
+  if (n_raw_guard && !n_raw_unpinned && n_unlink == 1) XV_CANARY("erase_it_int.raw_guard_pinned");
   if (n_mark == 1 && n_unlink == 1) XV_CANARY("erase_it_int.direct");
   if (n_mark == 1 && n_unlink == 0) XV_CANARY("erase_it_int.refind");
   if (n_mark == 0) XV_CANARY("erase_it_int.marked_by_other");
